@@ -14,7 +14,6 @@
 from __future__ import annotations
 
 import json
-import multiprocessing as mp
 import os
 
 from common import InfraError, lean_batch, LEAN
@@ -80,11 +79,9 @@ def run(ctx):
             "quota": QUOTA_QUICK if ctx.quick else QUOTA_THOROUGH,
             "ordinary": ctx.scale(12, 120), "chain_procs": ctx.scale(2, 10), "chain_attempts": ctx.scale(5, 24),
             "model_cases_per_op": ctx.scale(6, 40)}
-    jobs = [(n, s, ctx.seed, opts) for n, s in c10_pool.POOL.items()]
-    nproc = min(len(jobs), 16, os.cpu_count() or 4)
     t1 = time.time()
-    with mp.get_context("spawn").Pool(nproc) as pl:
-        recs = pl.map(c10_worker.worker, jobs, chunksize=1)
+    recs = run_workers(ctx, [(n, s, ctx.seed, opts) for n, s in c10_pool.POOL.items()],
+                       deadline_s=ctx.scale(1500, 5400))
     timing["stream_s"] = round(time.time() - t1, 1)
     timing["per_program_s"] = {r["name"]: r.get("wall_s") for r in recs}
 
@@ -109,6 +106,12 @@ def run(ctx):
             else:
                 ctx.violation(f"observer-exception:{x.get('att', {}).get('op')}", str(x.get("exc")), x, no_input=True)
 
+    timeouts = [(r["name"], t) for r in recs for t in r.get("timeouts", [])]
+    if timeouts:
+        ctx.extra["attempt_timeouts"] = [{"program": n, **t} for n, t in timeouts]
+        if not ctx.violations and not ctx.known_hits:
+            raise InfraError(f"the real code did not return from an attempt within its time limit: {timeouts[:2]}")
+
     # ------------------------------------------------------------------ correspondence A
     t2 = time.time()
     _model_correspondence(ctx, modelled)
@@ -129,6 +132,50 @@ def run(ctx):
     ctx.evaluations = c.get("pairs-executed", 0)
     ctx.distinct = set(range(c.get("pairs-nontrivial", 0)))
     ctx.extra["programs"] = sorted(c10_pool.POOL)
+
+
+def run_workers(ctx, jobs, deadline_s):
+    """one OS process per program (`python props/c10_worker.py job out`): a worker that hangs inside
+    the real code writes what it has and exits (watchdog), or is killed at the deadline; either way
+    the other programs' results are kept"""
+    import subprocess
+    import sys
+    import tempfile
+    import time
+
+    here = os.path.dirname(os.path.abspath(__file__))
+    recs = []
+    with tempfile.TemporaryDirectory(prefix="c10_jobs_") as td:
+        procs = []
+        for (name, src, seed, opts) in jobs:
+            jf, of = os.path.join(td, name + ".job.json"), os.path.join(td, name + ".out.json")
+            with open(jf, "w") as f:
+                json.dump({"name": name, "src": src, "seed": seed, "opts": opts}, f)
+            p = subprocess.Popen([sys.executable, "-B", os.path.join(here, "c10_worker.py"), jf, of],
+                                 stdout=subprocess.PIPE, stderr=subprocess.PIPE, text=True)
+            procs.append((name, src, p, of))
+        t0 = time.time()
+        for (name, src, p, of) in procs:
+            left = max(1.0, deadline_s - (time.time() - t0))
+            killed = False
+            try:
+                _, err = p.communicate(timeout=left)
+            except subprocess.TimeoutExpired:
+                p.kill()
+                _, err = p.communicate()
+                killed = True
+            rec = None
+            if os.path.exists(of):
+                try:
+                    rec = json.load(open(of))
+                except Exception:
+                    rec = None
+            if rec is None:
+                rec = {"name": name, "src": src, "records": [], "counts": {}, "samples": [],
+                       "error": ("infra: worker killed at the deadline" if killed else
+                                 f"infra: worker died rc={p.returncode}: {(err or '')[-600:]}")}
+            recs.append(rec)
+    return recs
 
 
 def _model_correspondence(ctx, cases):
